@@ -1064,6 +1064,110 @@ theorem group_history_fresh_partial (conv : Conv C) (hok : ConvOK conv) (u : FUn
       rw [hstep] at hrest ⊢
       exact ih w' hck hinv' hrest
 
+/-! ## one pipeline object used for several runs: runs do not depend on earlier runs
+
+The only state an element carries from one run to the next is the template cache of `RenderLaTeX`
+(`Model/C19.lean`, section "One pipeline object used for several runs").  It is harmless as long as an edit of the
+template file changes the file's modification time. -/
+
+/-- the cache is coherent with the template file: a cached template is not newer than the file, and if it carries
+the file's current modification time it is the file's content -/
+def CacheOK (st : PipeState) (f : TplFile) : Prop :=
+  ∀ t m, st.cache = some (t, m) → m ≤ f.mtime ∧ (m = f.mtime → t = f.tpl)
+
+theorem CacheOK.fresh (f : TplFile) : CacheOK {} f := by
+  intro t m h; cases h
+
+/-- `get_template` returns the template that is on disk now, whatever was rendered before -/
+theorem getTemplate_current (st : PipeState) (f : TplFile) (h : CacheOK st f) :
+    (getTemplate st f).1 = f.tpl ∧ CacheOK (getTemplate st f).2 f := by
+  unfold getTemplate
+  cases hc : st.cache with
+  | none =>
+    refine ⟨rfl, ?_⟩
+    intro t m hh; simp only [Option.some.injEq, Prod.mk.injEq] at hh
+    obtain ⟨rfl, rfl⟩ := hh; exact ⟨Nat.le_refl _, fun _ => rfl⟩
+  | some tm =>
+    obtain ⟨t, m⟩ := tm
+    by_cases hm : m = f.mtime
+    · simp only [hm, if_true]
+      exact ⟨(h t m hc).2 hm, h⟩
+    · simp only [hm, if_false]
+      refine ⟨by first | rfl | trivial, ?_⟩
+      intro t' m' hh; simp only [Option.some.injEq, Prod.mk.injEq] at hh
+      obtain ⟨rfl, rfl⟩ := hh; exact ⟨Nat.le_refl _, fun _ => rfl⟩
+
+/-- an edit of the template file (the modification time moves on) keeps the cache coherent: the cached
+template is simply out of date -/
+theorem CacheOK.edit {st : PipeState} {f : TplFile} (h : CacheOK st f) (t' : Nat) : CacheOK st ⟨t', f.mtime + 1⟩ := by
+  intro t m hc
+  have := (h t m hc).1
+  exact ⟨by simp; omega, fun hm => by simp at hm; omega⟩
+
+/-- **`run_independent_of_previous_runs`.**  A run of a pipeline object that was used before (any state `st`
+coherent with the template file — in particular any state reached by earlier runs and template edits) does to
+the file system, and yields, exactly what a run of a newly built pipeline does with the template that is on disk
+now; and the state stays coherent. -/
+theorem run_independent_of_previous_runs (conv : Conv C) (st : PipeState) (w : World C) (r : RunSpec) (f : TplFile)
+    (h : CacheOK st f) :
+    (match runObject conv st w r f with
+     | .error e => Except.error e
+     | .ok (w', vs, _) => Except.ok (w', vs)) = runSpec conv w { r with tpl := f.tpl } ∧
+    (∀ w' vs st', runObject conv st w r f = .ok (w', vs, st') → CacheOK st' f) := by
+  obtain ⟨h1, h2⟩ := getTemplate_current st f h
+  unfold runObject
+  simp only [h1]
+  cases hr : runSpec conv w { r with tpl := f.tpl } with
+  | error e => exact ⟨rfl, fun _ _ _ hh => by cases hh⟩
+  | ok x =>
+    obtain ⟨w', vs⟩ := x
+    refine ⟨rfl, ?_⟩
+    intro w'' vs' st' hh
+    simp only [Except.ok.injEq, Prod.mk.injEq] at hh
+    obtain ⟨_, _, rfl⟩ := hh
+    split
+    · exact h
+    · exact h2
+
+/-- **whole histories**: one pipeline object used for every run of a history of runs, removals of files and
+edits of the template leaves the same world as building a new pipeline for every run.  Hence every theorem about
+`exec` / `step` (`history_fresh_partial`, …) holds for re-used objects too. -/
+theorem object_history_eq_fresh (conv : Conv C) :
+    ∀ (h : List OStep) (s : OState C), CacheOK s.st s.f →
+      (oexec conv s h).w = exec conv s.w (freshHistory s.f.tpl h) := by
+  intro h
+  induction h with
+  | nil => intro s _; rfl
+  | cons x rest ih =>
+    intro s hs
+    cases x with
+    | edit t =>
+      have := ih { s with f := ⟨t, s.f.mtime + 1⟩ } (hs.edit t)
+      simpa [oexec, ostep, freshHistory] using this
+    | del ps =>
+      have := ih { s with w := step conv s.w (.del ps) } hs
+      simpa [oexec, ostep, freshHistory, Lena.C19.exec] using this
+    | run r =>
+      obtain ⟨h1, h2⟩ := run_independent_of_previous_runs conv s.st s.w r s.f hs
+      cases hr : runObject conv s.st s.w r s.f with
+      | error e =>
+        rw [hr] at h1
+        have hstep : step conv s.w (.run { r with tpl := s.f.tpl }) = s.w := by simp only [step, ← h1]
+        have := ih s hs
+        simp only [oexec, List.foldl_cons, ostep, hr, freshHistory, Lena.C19.exec, hstep] at this ⊢
+        exact this
+      | ok x =>
+        obtain ⟨w', vs, st'⟩ := x
+        rw [hr] at h1
+        have hstep : step conv s.w (.run { r with tpl := s.f.tpl }) = w' := by simp only [step, ← h1]
+        have := ih { s with w := w', st := st' } (h2 w' vs st' hr)
+        simp only [oexec, List.foldl_cons, ostep, hr, freshHistory, Lena.C19.exec, hstep] at this ⊢
+        exact this
+
+/-- what the hypothesis excludes: if the template file is replaced *without* a change of its modification time,
+`RenderLaTeX` keeps rendering the cached template (jinja2 compares modification times only) -/
+example : (getTemplate { cache := some (1, 5) } ⟨2, 5⟩).1 = 1 := by decide
+
 /-! ## the hypotheses are satisfiable: concrete non-trivial instances -/
 
 section Examples
